@@ -42,7 +42,6 @@ def dropBytes : Str → Nat → Option Str
   | cs, 0 => some cs
   | [], _ + 1 => none
   | c :: cs, n + 1 => if clen c ≤ n + 1 then dropBytes cs (n + 1 - clen c) else none
-termination_by cs => cs.length
 
 /-- Take `n` bytes from the front; `none` if `n` is not on a char boundary or past the end. -/
 def takeBytes : Str → Nat → Option Str
@@ -50,7 +49,6 @@ def takeBytes : Str → Nat → Option Str
   | [], _ + 1 => none
   | c :: cs, n + 1 =>
     if clen c ≤ n + 1 then (takeBytes cs (n + 1 - clen c)).map (c :: ·) else none
-termination_by cs => cs.length
 
 /-- `&s[a..b]`; `none` models the panic. -/
 def sliceBytes (cs : Str) (a b : Nat) : Option Str :=
